@@ -84,12 +84,12 @@ CHECKS = [
      "text": 'At every commit of an interaction or cell-veto handler the in-state snapshot taken when its candidate was computed is compared with the global state just before the commit: same velocities, same straight-line trajectory, same positions of resting units. Sampling intervals are drawn small so that candidates regularly survive intervening events. The entry the scheduler returns must carry the current candidate time of its handler, and every time the mediator asks for the next event each candidate of such a handler still pending in the scheduler is compared with the global state in the same way (no candidate survives a change of motion of a unit it depends on).',
      "note": "Trusted: vlib/monitor.py (harness-side recomputation of trajectories with the code's own Time subtraction), instance-attribute wrappers of vlib/engine.py, private reads Mediator._state_handler/_scheduler/_activator/_input_output_handler and Activator._taggers/_internal_states. Since the repair of the nearby-cells ordering (fix 55b0c76) runs with cell systems are a pure function of the drawn case; should Hypothesis still report a non-reproducible failure the first observed violation is reported with a note. Generated configurations edit parameters of shipped files only; hard_disk_dipoles(.ini|_cells.ini) need MDAnalysis and are not runnable here."},
     {"id": "C09", "engine": "history-monitor", "design_ref": "DESIGN.md §3 C09, §2.2",
-     "technique": "property-based testing over generated run histories (Hypothesis draws configuration, seed, budget) with a per-event invariant monitor on the real mediator loop",
-     "text": 'Before every get_succeeding_event the pending (pushed, not trashed) in-state identifier tuples per tagger are compared, as multisets of ordered tuples, with what the tagger yields from scratch for the current active state; counts for the non-interaction taggers; TagActivatorError and exceeding the owned handlers are violations.',
+     "technique": "property-based testing over generated run histories (Hypothesis draws configuration, seed, budget) with a per-event invariant monitor on the real mediator loop; model-based property testing of the tag activator over generated wirings and event sequences",
+     "text": 'Before every get_succeeding_event the pending (pushed, not trashed) in-state identifier tuples per tagger are compared, as multisets of ordered tuples, with what the tagger yields from scratch for the current active state; counts for the non-interaction taggers; TagActivatorError and exceeding the owned handlers are violations. The from-scratch generation uses the generators the taggers had before anything was deactivated and an activation model read from the configuration text. Sub-check activator_model (no run): generated wirings with arbitrary create/trash/activate/deactivate lists on the real TagActivator/Tagger classes against a model of the documented pool semantics (trashable events == pending events of the trashed tags, handlers started == in-states generated by activated taggers of the create list, TagActivatorError exactly on pool exhaustion).',
      "note": "Trusted: vlib/monitor.py (harness-side recomputation of trajectories with the code's own Time subtraction), instance-attribute wrappers of vlib/engine.py, private reads Mediator._state_handler/_scheduler/_activator/_input_output_handler and Activator._taggers/_internal_states. Since the repair of the nearby-cells ordering (fix 55b0c76) runs with cell systems are a pure function of the drawn case; should Hypothesis still report a non-reproducible failure the first observed violation is reported with a note. Generated configurations edit parameters of shipped files only; hard_disk_dipoles(.ini|_cells.ini) need MDAnalysis and are not runnable here."},
     {"id": "C11", "engine": "history-monitor", "design_ref": "DESIGN.md §3 C11, §2.2",
      "technique": "property-based testing over generated run histories (Hypothesis draws configuration, seed, budget) with a per-event invariant monitor on the real mediator loop",
-     "text": 'On all cell configurations (shipped + edited grids/caps/N, clustered initial configurations with several units per cell, generated families G5 in a non-cubic box and G6 with downward wall crossings): right after every activator update and before every get the occupancy view (occupants per cell, surplus, active cell) is compared with the true positions; at every commit the active unit advanced to the event time must lie in its recorded cell, after a cell-boundary event in the neighbour in the direction of motion.',
+     "text": 'On all cell configurations (shipped + edited grids/caps/N, clustered initial configurations with several units per cell, generated families G5 in a non-cubic box and G6 with downward wall crossings): right after every activator update and before every get the occupancy view (occupants per cell, surplus, active cell) is compared with the true positions; at every commit the active unit advanced to the event time must lie in its recorded cell, after a cell-boundary event in the neighbour in the direction of motion. Sub-check occupancy_legs (no run): SingleActiveCellOccupancy driven leg by leg on generated populations (crowded cells, caps, signed/zero charges behind the filter, point masses or whole objects in cells): moves inside a cell, wall crossings up and down incl. the periodic wall, hand-over of the activity to occupant/surplus/distant/filtered-out units; occupant lists, per-cell surplus lists and the active record are compared with the positions after every update().',
      "note": "Trusted: vlib/monitor.py (harness-side recomputation of trajectories with the code's own Time subtraction), instance-attribute wrappers of vlib/engine.py, private reads Mediator._state_handler/_scheduler/_activator/_input_output_handler and Activator._taggers/_internal_states. Since the repair of the nearby-cells ordering (fix 55b0c76) runs with cell systems are a pure function of the drawn case; should Hypothesis still report a non-reproducible failure the first observed violation is reported with a note. Generated configurations edit parameters of shipped files only; hard_disk_dipoles(.ini|_cells.ini) need MDAnalysis and are not runnable here."},
     {"id": "C12", "engine": "history-monitor", "design_ref": "DESIGN.md §3 C12, §2.2",
      "technique": "property-based testing over generated run histories (Hypothesis draws configuration, seed, budget) with a per-event invariant monitor on the real mediator loop",
